@@ -235,21 +235,36 @@ def _limits(mem_gb):
     return f
 
 
+import threading as _threading
+CANCEL = _threading.Event()  # set by the runner in --fail-fast mode once a violation has been established
+
+
 def run_cmd(cmd, cwd, env, timeout, mem_gb=None, log=None):
     t0 = time.time()
     out = open(log, "w") if log else subprocess.PIPE
     p = subprocess.Popen(cmd, cwd=cwd, env=env, stdout=out, stderr=subprocess.STDOUT,
                          preexec_fn=_limits(mem_gb), text=True)
     timed_out = False
-    try:
-        so, _ = p.communicate(timeout=timeout)
-    except subprocess.TimeoutExpired:
-        timed_out = True
+    so = None
+    deadline = t0 + timeout
+    while True:
         try:
-            os.killpg(p.pid, signal.SIGKILL)
-        except ProcessLookupError:
-            pass
-        so, _ = p.communicate()
+            so, _ = p.communicate(timeout=2)
+            break
+        except subprocess.TimeoutExpired:
+            cancelled = CANCEL.is_set()
+            if cancelled or time.time() > deadline:
+                timed_out = not cancelled
+                try:
+                    os.killpg(p.pid, signal.SIGKILL)
+                except ProcessLookupError:
+                    pass
+                so, _ = p.communicate()
+                if cancelled:
+                    if log:
+                        out.close()
+                    return -9, "CANCELLED (fail-fast: another harness of this check already reported a violation)\n", False, time.time() - t0
+                break
     if log:
         out.close()
         with open(log, errors="replace") as f:
